@@ -44,6 +44,14 @@ def replay_known(prop, header, sr):
                 still = signature_holds(f, w["case"], il, ml)
             except Exception as e:
                 still = None
+        elif w.get("kind") == "h1-twin-state" and header:
+            try:
+                il, ml = h1.run_single(header, w["case"])
+                il2, ml2 = h1.run_single(header, w["twin"])
+                ra, rb = core.parse_result(il), core.parse_result(il2)
+                still = repr(ra.get("state")) != repr(rb.get("state")) and not ra["errs"] and not rb["errs"]
+            except Exception:
+                still = None
         elif w.get("kind") == "h1-twin" and header:
             try:
                 il, ml = h1.run_single(header, w["case"])
